@@ -14,8 +14,9 @@ READS = [("body", "body"), ("topdef", "body"), ("nested", "body"), ("anon", "bod
 class Probe:
     """one probe name with its binding site and read placements"""
 
-    def __init__(self, name, binding, ctx_has, reads, loop_host="body", uid=0):
+    def __init__(self, name, binding, ctx_has, reads, loop_host="body", uid=0, in_for=False):
         self.name, self.binding, self.ctx_has, self.reads, self.loop_host, self.uid = name, binding, ctx_has, reads, loop_host, uid
+        self.in_for = in_for      # the read nodes sit inside a `% for` over an unrelated target
 
 
 class Builder:
@@ -108,6 +109,8 @@ class Builder:
             if host == "def":
                 self.need_f = True
             target = self.body_main if host == "body" else self.f_main
+            if p.in_for:
+                nodes = [G.For(["it%d_%d" % (p.uid, self.sid)], self.mark("IT", "it"), nodes)]
             if loop_wrap == host:
                 target.append(G.For([x], self.mark("LOOP", x), nodes))
             else:
@@ -172,6 +175,24 @@ def build_from_desc(desc):
 
 def build_product(desc):
     bd = Builder()
-    name = "abs" if desc["binding"] == "builtin" else "px"
-    bd.add(Probe(name, desc["binding"], desc["ctx_has"], [(desc["read"], desc["host"])], desc["loop_host"], 1))
+    name = desc.get("name") or ("abs" if desc["binding"] == "builtin" else "px")
+    bd.add(Probe(name, desc["binding"], desc["ctx_has"], [(desc["read"], desc["host"])], desc["loop_host"], 1, desc.get("in_for", False)))
+    cfg = desc.get("loopcfg", "on")
+    bd.t.enable_loop = cfg != "off"
+    bd.t.page_enable_loop = cfg == "page"
     return bd
+
+
+def loop_name_product():
+    """the probe is NAMED `loop`: with the loop context disabled it is an ordinary name (every binding site, read
+    inside a `% for` over another target); with it enabled (constructor flag, or <%page enable_loop="True"/> on a
+    template constructed with enable_loop=False) and bound nowhere it is the loop context"""
+    for cfg in ("off", "on", "page"):
+        bindings = [b for b in BINDINGS if b != "builtin"] if cfg == "off" else ["nowhere"]
+        for b in bindings:
+            for ctx_has in ((True,) if b == "context" else (False,) if (b == "nowhere" or cfg != "off") else (False, True)):
+                for lh in (("body", "def") if b == "loop" else ("body",)):
+                    for site, host in READS:
+                        desc = {"binding": b, "ctx_has": ctx_has, "read": site, "host": host, "loop_host": lh,
+                                "name": "loop", "in_for": True, "loopcfg": cfg}
+                        yield desc, build_product(desc)
